@@ -393,6 +393,12 @@ func (w *World) lenOfKey(v ssa.Value, k sliceKey) (int64, bool) {
 // lenOfKeyLoad also returns the load whose length is taken (nil for registers).
 func (w *World) lenOfKeyLoad(v ssa.Value, k sliceKey) (int64, ssa.Value, bool) {
 	r, c := rootOffset(v)
+	// the length a slice was made with is its length: for x = make(_, n), n itself reads len(x)
+	if mk, isMk := k.reg.(*ssa.MakeSlice); isMk && r == mk.Len {
+		if _, isK := constInt(r); !isK {
+			return c, nil, true
+		}
+	}
 	call, ok := r.(*ssa.Call)
 	if !ok || calleeName(call) != "builtin.len" {
 		return 0, nil, false
